@@ -63,6 +63,18 @@ class C03(SnapCheck):
             s.digest().raw("KW %d %s" % (conn, " ".join(hx(a) for a in argv)), ["raw", "KW"])
             s.digest().raw("T").digest().cmd(0, "LASTSAVE")
             out["write-during-snapshot"].append(s)
+        # between two snapshots the only change is a key replaced by another whose name differs in bytes that are not valid
+        # UTF-8 (same value, same deadline): the second snapshot is not "nothing new"
+        out["binary-key-replaced"] = []
+        pairs = [("session:\xff\x01", "session:\xfe\x01"), ("\xffk", "\xfek"), ("a\xc3", "a\xe9"), ("k\x80\x80", "k\x81\x80")]
+        for i, (k1, k2) in enumerate(pairs if quick else pairs * 5):
+            s = Script("bk%d" % i, {})
+            s.cmd(0, "SET", "plain", "1").cmd(0, "SET", k1, "same-value")
+            s.digest().raw("V").cmd(0, "LASTSAVE").advance(5)
+            if i % 2: s.cmd(0, "RENAME", k1, k2)
+            else: s.cmd(0, "DEL", k1).cmd(0, "SET", k2, "same-value")
+            s.digest().raw("V").cmd(0, "LASTSAVE").advance(3).raw("T").digest().cmd(0, "LASTSAVE")
+            out["binary-key-replaced"].append(s)
         for i in range(60 if quick else 3000):
             s = Script("ds%d" % i, {})
             put_dataset(s, rng, now, rng.randrange(1, 9))
